@@ -46,6 +46,12 @@ CLAIMED = {
             "returns the input, passes through the old samples, complex = real + i imag with the same orders (orders 1,3,5). NOT claimed: "
             "polynomial exactness and the interp2d-based zoom (FITPACK / removed from SciPy)",
             "RectBivariateSpline is an uninterpreted interpolating function (contract stub); radii linspace(...)**1.9 evaluated in floating point."),
+    "C19": ("5 C19", "calculate_structure_function on symbolic phase: entry j = mean squared difference at lag j*step along axis 0, 0 at lag 0 "
+            "(numpy.empty = arbitrary values), ramp -> a^2 (j step)^2, quadratic in amplitude (shapes to 8x8 quick / 12x12 thorough, steps 1-4); "
+            "calc_slope_temporalps: mean spectrum = sub-aperture mean of |DFT along frames|^2, quadratic in amplitude, error = std/sqrt(n), "
+            "a pure sinusoid peaks at its bin (frames 2-4 quick / 8 thorough, any leading shape); get_tps_time_axis = k*frame_rate/n for symbolic "
+            "frame rate and n <= 9 quick / a range up to 101 thorough (odd n included)",
+            "'follows the analytic structure function on generated screens' is statistical - outside."),
     "C17": ("5 C17", "all converters of atmos_conversions and _astronomy: the six inverse pairs (explicit and default wavelength), "
             "composites = compositions, scaling exponents (lambda^(6/5), Cn2^(-3/5), lambda^(-1/5), r0^(-5/3), d^(-1/3)), "
             "single-layer theta0/tau0 = C r0/h with 0.313<C<0.315, axis argument = loop over profiles for rank 1-3 arrays and every "
